@@ -482,3 +482,28 @@ PROPS["C11"]["drivers"] = PROPS["C11"]["drivers"] + [{"name": "alias", "bin": "v
 PROPS["C11"]["model_files"] = list(dict.fromkeys(PROPS["C11"]["model_files"] + SLICE_MODEL))
 PROPS["C11"]["rule"] = PROPS["C11"]["rule"] + (" || alias (vh_conc, shape shared-persister only): ONE WithFlush persister reused for every request of 2-4 interleaved sessions; every session's responses and "
     "stored session must equal its solo run (applications without LOAD/RELOAD and without entry functions: see K-C11-6)")
+
+# C19 (agent conc follow-up 5): a third of the race runs with a Config.Language per session and a language function
+PROPS["C19"]["rule"] = PROPS["C19"]["rule"] + " || race: a third of the runs (those formerly plain or logging-only) give every session its own Config.Language out of {nor, swa, fra, eng, none} and use applications with LOADs, a lang1 function (FLAG_LANG) and translated templates"
+
+# C11: persist/persist.go modelled (agent persist): one real Persister over a mem store, step-by-step
+PERSIST_MODEL = ["model/Bytes.v", "model/Errors.v", "model/CacheModel.v", "model/StateModel.v", "model/DbKey.v", "model/PersistModel.v", "corr/CorrBase.v", "corr/PersistCorr.v"]
+PROPS["C11"]["files"] = list(dict.fromkeys(PROPS["C11"]["files"] + ["proofs/PersistProofs.v", "props/C11persist.v"]))
+PROPS["C11"]["prop_files"] = PROPS["C11"].get("prop_files", [PROPS["C11"]["prop_file"]]) + ["props/C11persist.v"]
+PROPS["C11"]["drivers"] = PROPS["C11"]["drivers"] + [{"name": "persist", "n_quick": 150, "n_thorough": 1500}]
+PROPS["C11"]["model_files"] = list(dict.fromkeys(PROPS["C11"]["model_files"] + PERSIST_MODEL))
+PROPS["C11"]["rule"] = PROPS["C11"]["rule"] + (" || persist: 7 hand-written histories (the leaks repaired by a037abb as regressions, the remaining mechanism of K-C11-6 with and without flush mode, the clean deployment, "
+    "invalid marks, nil objects) + n generated histories of 4-25 operations on ONE real persist.Persister over a mem store with 1-3 session keys: WithContent(generated state and cache), Save(k), Load(k), WithFlush, "
+    "Invalidate; after EVERY operation compared with the model: result class, all exported fields of p.State and p.Memory, GetInput, the Invalid marks, the spare part of Cache.Cache's backing array, and all probed records "
+    "of the store decoded by a NEW persister; monitor: after Load(k) the persister holds exactly the record last stored under k, a failed Load changes nothing, Save(k) stores exactly the current content and no other "
+    "record changes, after a flushing Save the persister is empty (class 0); class 6 (K-C11-6): a Load(k) found no record while the persister still holds the session of another key")
+
+# C11: a static LOAD symbol must be served from its STATICLOAD record whatever else the resource's handle was used for in between
+PROPS["C11"]["drivers"] = PROPS["C11"]["drivers"] + [{"name": "staticload", "n_quick": 100, "n_thorough": 1000}]
+PROPS["C11"]["model_files"] = list(dict.fromkeys(PROPS["C11"]["model_files"] + ["model/ResModel.v", "corr/StaticCorr.v"]))
+PROPS["C11"]["rule"] = PROPS["C11"]["rule"] + " || staticload (see C18): between resolving a static symbol and calling the returned function the same resource serves a code and a template lookup (other data types on the shared handle)"
+
+# C17, last sentence: Flush before anything was executed, on every kind of engine object
+PROPS["C17"]["drivers"] = PROPS["C17"]["drivers"] + [{"name": "flushfirst", "n_quick": 40, "n_thorough": 400}]
+PROPS["C17"]["model_files"] = list(dict.fromkeys(PROPS["C17"]["model_files"] + ["corr/FlushFirstCorr.v"]))
+PROPS["C17"]["rule"] = PROPS["C17"]["rule"] + " || flushfirst: n generated configurations x 4 ways of building the engine object (alone, with a persister for a new / a stored session, with an explicit state and cache): Flush as the first operation, twice; it must answer ErrFlushNoExec, write nothing and not panic"
